@@ -22,7 +22,6 @@ type NA struct{ ID, Reason string }
 
 var NotApplicable = []NA{
 	{"C12", "exactness of float<->decimal conversion is purely numerical (shortest digits, correct rounding over 2^64 inputs); no structural necessary condition beyond a single fallback `if`; see DESIGN.md section 4/C12"},
-	{"C19", "accepted JSON language and byte-exact serialisation are value-level; tokenising is delegated to encoding/json; no discipline in the code shape whose violation can be named; see DESIGN.md section 4/C19"},
 }
 
 var commonAssumptions = []string{
@@ -35,8 +34,9 @@ var commonAssumptions = []string{
 var All = []*Prop{
 	{
 		ID:    "C08",
-		Rules: []*core.Rule{rules.UnwindAgree, rules.UncatchableClose, rules.IterPop, rules.IterProto, rules.CtxFields},
+		Rules: []*core.Rule{rules.UnwindAgree, rules.UnwindTarget, rules.UncatchableClose, rules.IterPop, rules.IterProto, rules.CtxFields},
 		Explanation: "R-UNWINDAGREE: the two compile-time walkers of the block stack (break/continue and return) emit, for every block kind, clean-up instructions with the same effect on vm.tryStack / vm.iterStack (effects derived from the exec methods): a kind unwound by one exit kind and not the other skips a finally or leaves an iterator open. " +
+			"R-UNWINDTARGET: the walk that emits the clean-up code of a break/continue leaves its loop over block.outer early only under an identity comparison of the enclosing block with the target block (seeded three times: an early exit decided by the kind of the enclosing block stops a labelled continue at the first inner for-let loop). " +
 			"R-UNCATCHABLECLOSE ('interrupts and stack overflows run none of them'): iterator-closing code on exceptional paths is guarded by a classification excluding uncatchable payloads. " +
 			"R-ITERPOP ('exactly once'): an instruction that pops an iterator record removes it from vm.iterStack before any call that can throw a JS exception past it. " +
 			"R-CTXFIELDS: try/iterator/reference records pending across a yield are saved, cut, restored and re-based consistently, and a suspension with nothing to save cannot inherit the previous suspension's records.",
@@ -46,7 +46,7 @@ var All = []*Prop{
 	},
 	{
 		ID:    "C02",
-		Rules: []*core.Rule{rules.EmitBalance, rules.PutOnStack, rules.PVariant, rules.PatchEffect, rules.DummyIsolate, rules.EnterSlot},
+		Rules: []*core.Rule{rules.EmitBalance, rules.PutOnStack, rules.PVariant, rules.PatchEffect, rules.DummyIsolate, rules.EnterSlot, rules.UnwindTarget},
 		Explanation: "Narrow: the compiler as a translation is not decided; decided is the operand-stack discipline of the code it emits, which is what the rewrites 'expression vs statement position', 'constant operands vs variables', 'unreachable code added' and 'visible to eval / plain local' exercise. " +
 			"The operand-stack effect of every VM instruction type is DERIVED from its exec method (sum of the constant vm.sp adjustments over all normal paths, with summaries of vm helpers; split by fall-through / jump for branching instructions; 238 of 259 types have a known effect). " +
 			"R-EMITBALANCE: abstract interpretation of the compiler's emitters over the domain 'net operand-stack effect of the bytecode emitted so far': for both values of the putOnStack flag every fully decidable emission path of every expression emitter leaves exactly the wanted value (1/0), helpers the flag is handed to differ by exactly one slot between the two flag values, statement compilers net 0, flag-less emit helpers agree on one effect over all their paths, and at every forward-jump target patched in the same function (j := len(code); emit(nil); ...; code[j] = jne(...)) the depth reached by the jump equals the depth reached by falling through. Paths with emissions that cannot be typed (calls, loops that emit, placeholders patched elsewhere) are counted and skipped, never guessed. " +
@@ -54,14 +54,29 @@ var All = []*Prop{
 			"R-PVARIANT: each P instruction has the derived effect of its base form minus one. " +
 			"R-PATCHEFFECT: the late allocation pass (finaliseVarAlloc) replaces a placeholder access instruction only by one with the same derived effect. " +
 			"R-DUMMYISOLATE: entering dead-code (dummy) compilation installs a block chain made only of fresh blocks, so break/continue in dead code cannot register patch positions of the throw-away program in live blocks. " +
-			"R-ENTERSLOT: the 'first binding aliases a value already on the stack' trick (enter.stackSize--) is applied only when the scope has no dynamic lookups.",
+			"R-ENTERSLOT: the 'first binding aliases a value already on the stack' trick (enter.stackSize--) is applied only when the scope has no dynamic lookups. " +
+			"R-UNWINDTARGET (see C08): break/continue unwind exactly to their target block.",
 		Technique:  "operand-stack effect table derived from exec methods (path summation on SSA); abstract interpretation of the emitters over net stack effect with flag specialisation and forward-jump join checks; must-consult path rule; sibling/table agreement; allocation-freshness of the dummy block chain; guarded-decrement belief rule",
 		DesignRef:  "DESIGN.md section 4, C02",
 		NotCovered: "everything else about the translation: scope analysis and which slot a name resolves to, constant folding results, completion values (needResult), function prologue variants, toString source capture, emission paths through calls/new/template/yield (variable effects), loops that emit, jumps patched through block.breaks/conts (loops, labelled statements, optional chains, try/finally), i.e. the behaviour of the compiled program",
 	},
 	{
+		ID:    "C19",
+		Rules: []*core.Rule{rules.JSONShape},
+		Explanation: "Narrow: the accepted language and the exact output text are value-level and not decided. Decided are six clauses whose truth is in the shape of builtin_json.go (R-JSONSHAPE): " +
+			"(1) a serialiser method that saves a context field (the indent), changes it and restores it on some path restores it on every normal path from the change (path search with the change's own guard kept consistent) - 'exactly the specified text for every indent'; " +
+			"(2) every return of JSON.parse lies on the err == io.EOF edge of one more Decoder.Token() call after the top-level value - 'rejecting every other text': no trailing input; " +
+			"(3) the decode functions store members with a define (_putProp / createDataProperty / newArrayValues) and contain no [[Set]] call - '__proto__' keys become own properties and no inherited setter runs; " +
+			"(4) in str() an object is appended to the serialiser's stack only after a loop that compares it with every entry and throws on a hit dominates the push, and the pop is registered in a defer before the recursion - 'cyclic references' give a TypeError, not a fatal Go stack overflow; " +
+			"(5) JSON.stringify and Object.MarshalJSON both enter (*_builtinJSON_stringifyContext).do - 'MarshalJSON agrees with stringify'; " +
+			"(6) quote() has the specification's escape table: \\\" \\\\ \\b \\t \\n \\f \\r by their own cases with exactly those strings, r < 0x20 and utf16.IsSurrogate for the \\u forms.",
+		Technique:  "must-pass-through path search with condition-consistent pruning (save/restore), controlling-condition check of returns (EOF), who-may-call (define vs set), loop-header dominance + deferred-pop pairing (cycle stack), call-graph sharing, constant-set agreement with the specification's escape table",
+		DesignRef:  "DESIGN.md section 4, C19",
+		NotCovered: "the accepted JSON language itself (delegated to encoding/json's tokenizer: numbers beyond double range, lone surrogates), duplicate keys and key order, reviver and replacer semantics, toJSON, number formatting, gap clamping, property enumeration order, round-trip equality: input/value-level behaviour",
+	},
+	{
 		ID:    "C01",
-		Rules: []*core.Rule{rules.PanicPayload, rules.ASTDispatch, rules.SelfAssert, rules.NilDesc, rules.Recover, rules.Classifier, rules.ReflectSafe, rules.EscapeAgree, rules.EmitBalance, rules.PutOnStack, rules.DummyIsolate, rules.EnterSlot},
+		Rules: []*core.Rule{rules.PanicPayload, rules.ASTDispatch, rules.SelfAssert, rules.NilDesc, rules.Recover, rules.Classifier, rules.ReflectSafe, rules.EscapeAgree, rules.EmitBalance, rules.PutOnStack, rules.DummyIsolate, rules.EnterSlot, rules.UnwindTarget, rules.NilProto, rules.LockScript},
 		Explanation: "Clauses decided: the engine's own ways of producing a non-documented panic are closed. " +
 			"R-PANICPAYLOAD classifies every panic(x) of the module (~500) by the static type of x: a type the boundary classifiers accept (derived from exceptionFromValue's case list, the uncatchableException implementers and compileAST on each run), a Value implementer, a re-panic of a recovered/classified value, a panic made unreachable by a preceding no-return call, or an internal assertion in the audited per-function table; a new string/error panic anywhere else is reported. " +
 			"R-ASTDISPATCH: every type switch over an interface of goja/ast whose default ends in an internal diagnostic covers every concrete ast type implementing the interface (go/types), up to an audited table of node types that the grammar only places in slots handled by the parent. " +
@@ -70,7 +85,9 @@ var All = []*Prop{
 			"R-RECOVER/R-CLASSIFIER (see C14): no recover swallows or misclassifies a payload. " +
 			"R-REFLECTSAFE: script operations on reflect-backed host objects never reach a panicking form of package reflect (FieldByIndex; Index beyond Len()) - see C13. " +
 			"R-ESCAPEAGREE: the lexer's measuring pass (scanEscape) and the decoder (parseStringLiteral) consume the same maximal number of digits for a legacy octal escape - the decoder panics on its own length self-check otherwise (seeded three times by independent agents). " +
-			"R-EMITBALANCE / R-PUTONSTACK / R-DUMMYISOLATE / R-ENTERSLOT (see C02): the decidable part of operand-stack balance of emitted bytecode - an unbalanced sequence shifts the callee/this slots of an enclosing call and ends in a failed Go type assertion or index panic; dead-code break patching and the uint32 underflow of enterBlock.stackSize crash the host outright.",
+			"R-EMITBALANCE / R-PUTONSTACK / R-DUMMYISOLATE / R-ENTERSLOT (see C02): the decidable part of operand-stack balance of emitted bytecode - an unbalanced sequence shifts the callee/this slots of an enclosing call and ends in a failed Go type assertion or index panic; dead-code break patching and the uint32 underflow of enterBlock.stackSize crash the host outright. " +
+			"R-NILPROTO: every field access through a value loaded from a pointer field that script can make nil (baseObject.prototype: null prototypes; proxyObject.target/handler outside the proxy's own methods: revocation) is control-dependent on a non-nil test of the same field path of the same object. " +
+			"R-LOCKSCRIPT (see C15): no call that may run script while an engine mutex is held, and vm.captureStack is script-free - user code reached from either re-enters machinery that is mid-flight (self-deadlock under interruptLock; unbounded recursion through a throwing `name` getter).",
 		Technique:  "panic-operand typing with classifier sets derived from the code, no-return dominance, type-switch exhaustiveness over go/types, justified-assertion and nil-dereference rules with inter-procedural summaries",
 		DesignRef:  "DESIGN.md section 4, C01",
 		NotCovered: "Go runtime panics at arbitrary sites (index out of range, nil dereference other than the descriptor clause, failed assertions on values other than X.self), operand-stack balance of emitted bytecode beyond the decidable paths of R-EMITBALANCE (calls, loops, jumps patched through block.breaks), parser panics guarded by length precomputation: properties of run-time data",
@@ -88,11 +105,12 @@ var All = []*Prop{
 	},
 	{
 		ID:    "C11",
-		Rules: []*core.Rule{rules.Revoked, rules.TrapPost, rules.TrapInvariant, rules.TrapThrow},
+		Rules: []*core.Rule{rules.Revoked, rules.TrapPost, rules.TrapInvariant, rules.TrapThrow, rules.NilProto},
 		Explanation: "R-REVOKED ('revoked proxies throw on every operation'): in each of the 41 objectImpl methods declared on proxyObject every dereference of p.target and every call receiving it is dominated by p.checkHandler() (directly or through a helper that always calls it), or by an explicit nil test, or the method is an audited exception; and proxyObject overrides every key-kinded and structural internal method (no silent fallback to baseObject). " +
 			"R-TRAPPOST ('invariant-breaking handlers are rejected' — the structural half): for each key-kinded trap family (defineOwnProperty, hasProperty, hasOwnProperty, getOwnProp, get, setOwn, setForeign, delete) the Str, Idx and Sym variants call the same proxy check helpers, handler traps and target operations modulo key kind, and validate against the target's getOwnProp of their own key kind. " +
 			"R-TRAPINVARIANT: two invariant checks whose shape is decidable - in proxyDeleteCheck every normally returning path with trapResult true and a non-nil target property passes target.self.isExtensible() (both the configurable and the extensible test apply to every existing property, not only to accessor/flagged ones); in proxyOwnKeys the value tested for non-configurability of an omitted key can come from target.getOwnProp (key iterators of most kinds carry no value). " +
-			"R-TRAPTHROW: a conditional throw (typeErrorResult(throw, ...)) in a proxyObject method occurs only under a falsish trap result; everything else - a trap answer that contradicts an invariant of the target - is rejected unconditionally, also for Reflect.* callers.",
+			"R-TRAPTHROW: a conditional throw (typeErrorResult(throw, ...)) in a proxyObject method occurs only under a falsish trap result; everything else - a trap answer that contradicts an invariant of the target - is rejected unconditionally, also for Reflect.* callers. " +
+			"R-NILPROTO (see C01): outside the proxy's own methods every dereference of proxyObject.target / handler is nil-guarded (a revoked callable proxy passed to Function.prototype.toString crashed the host).",
 		Technique:  "dominance of a revocation check over every target use (SSA, with helper summaries); sibling callee-set agreement across key kinds; method-set override completeness; must-pass-through with excusing edges; value-origin (phi closure) check",
 		DesignRef:  "DESIGN.md section 4, C11",
 		NotCovered: "whether each post-check's boolean conditions are the specification's (__isCompatibleDescriptor, the rest of proxyOwnKeys completeness): decision tables over descriptor values; forwarding equivalence as a whole",
@@ -156,20 +174,22 @@ var All = []*Prop{
 	},
 	{
 		ID:    "C14",
-		Rules: []*core.Rule{rules.Classifier, rules.Recover, rules.GoError, rules.InterruptSync, rules.UncatchableClose},
+		Rules: []*core.Rule{rules.Classifier, rules.Recover, rules.GoError, rules.InterruptSync, rules.UncatchableClose, rules.LockScript},
 		Explanation: "R-CLASSIFIER: in vm.exceptionFromValue (the single place where a panic payload becomes a script-catchable Exception) no case type accepts an implementer of uncatchableException (go/types assignability over every named type of the package), *Object is matched before Value, the *Object and Value cases store the matched value itself in Exception.val (SSA identity), and unknown payloads yield nil. " +
 			"R-RECOVER: for each of the recover() sites of the module and each caller of tryFunc, on the non-nil branch every exit is dominated by a re-panic of the same value, a call to handleThrow with it, or a successful classification; handleThrow re-panics what exceptionFromValue cannot convert. " +
 			"R-GOERROR: at every bridge for errors returned by host code (reflected native functions, json.Marshaler) NewGoError(err) is dominated by the false edges of err.(*Exception) and isUncatchableException(err), and the *Exception branch re-panics err itself. " +
-			"R-INTERRUPTSYNC / R-UNCATCHABLECLOSE (see C15): the interrupt flag is cleared only by leaveAbrupt/the public API, so it stays raised while the InterruptedError unwinds and no script catch/finally/iterator-return code can run.",
+			"R-INTERRUPTSYNC / R-UNCATCHABLECLOSE (see C15): the interrupt flag is cleared only by leaveAbrupt/the public API, so it stays raised while the InterruptedError unwinds and no script catch/finally/iterator-return code can run. " +
+			"R-LOCKSCRIPT: capturing the stack of an exception (vm.captureStack, called when an exception is created or thrown) runs no script, so no user getter can run - and throw - in the middle of raising another error.",
 		Technique:  "type-switch assignability over go/types, SSA value identity, must-pass-through on recover handlers with controlling-condition classification",
 		DesignRef:  "DESIGN.md section 4, C14",
 		NotCovered: "stack-trace contents and the position of the top frame, errors.Is/As chains through GoError (value-level), every sequence of frame kinds, StackOverflowError observability through natives that flatten the error into a new one",
 	},
 	{
 		ID:    "C15",
-		Rules: []*core.Rule{rules.InterruptSync, rules.Poll, rules.UncatchableClose, rules.TryPair, rules.Boundary, rules.ScopedState, rules.PairDefer, rules.ExitAgree, rules.Classifier},
+		Rules: []*core.Rule{rules.InterruptSync, rules.Poll, rules.UncatchableClose, rules.TryPair, rules.Boundary, rules.ScopedState, rules.PairDefer, rules.ExitAgree, rules.Classifier, rules.LockScript},
 		Explanation: "R-INTERRUPTSYNC decides the race-freedom clause for the engine's own accesses: vm.interrupted is only touched through sync/atomic, vm.interruptVal only between interruptLock.Lock/Unlock, the value is published before the flag is raised, the flag is raised only in vm.Interrupt and cleared only in vm.ClearInterrupt which is reached only from the public API and leaveAbrupt (so it stays raised for the whole unwinding), and the transitive callees of Runtime.Interrupt/ClearInterrupt touch no other runtime state. " +
 			"R-POLL: every instruction-dispatch loop loads the flag atomically on each iteration, unconditionally, before the dispatch, and the loaded value gates the dispatch. " +
+			"R-LOCKSCRIPT ('stops the script promptly'): between Lock and Unlock of every sync.Mutex of the engine (interruptLock, the profiler's and weak map's) no call may run script according to the script-free summary, and vm.captureStack - which builds the InterruptedError's stack - is script-free: the VM is re-entrant on one goroutine, so script reached under the lock deadlocks the interrupted run on its own mutex (found on the pinned tree: a `name` getter on a native frame). " +
 			"R-UNCATCHABLECLOSE: code that closes iterators on an exceptional path is guarded by a classification that excludes uncatchable payloads ('run no further catch or finally'). " +
 			"R-TRYPAIR/R-BOUNDARY/R-SCOPEDSTATE/R-PAIRDEFER/R-EXITAGREE (see C03): the runtime is reusable afterwards, queued jobs are dropped, no activation marker or stale register stays set.",
 		Technique:  "atomic/lockset/ordering/who-may-write rules and effect containment over the call graph; dominance of the poll in dispatch loops; controlling-condition classification of cleanup calls",
